@@ -279,6 +279,15 @@ class Lexer:
             if self.read() == "\\" and self.read(2).isprintable():
                 value = self.read(2)
                 self.pos += 2
+                # Hexadecimal (\xhh) and octal (\ooo) escape sequences.
+                if value[1] == "x":
+                    while self.read() in list("0123456789abcdefABCDEF"):
+                        value += self.read()
+                        self.pos += 1
+                elif value[1] in "01234567":
+                    while len(value) < 4 and self.read() in list("01234567"):
+                        value += self.read()
+                        self.pos += 1
             elif self.read().isprintable():
                 value = self.read()
                 self.pos += 1
@@ -2006,6 +2015,11 @@ class ExpressionEvaluator(Parser):
         try:
             constant = self.match_type(CharacterConstant)
             value = constant.token
+            if len(value) > 2 and value[0] == "\\":
+                # Hexadecimal and octal escape sequences.
+                if value[1] == "x":
+                    return np.int64(int(value[2:], 16))
+                return np.int64(int(value[1:], 8))
             if len(value) == 2 and value[0] == "\\":
                 # Simple and single-digit octal escape sequences.
                 escapes = {
